@@ -82,8 +82,14 @@ def key_dir_alt() -> str:
     os.makedirs(tmp, exist_ok=True)
     for i in range(6):
         for n in ("ed25519", "p256"):
-            with open(os.path.join(tmp, f"{n}_n{i}.pem"), "wb") as fh:
-                fh.write(pem(f"{n}_n{i}_alt"))
+            for sep in ("_", "."):
+                with open(os.path.join(tmp, f"{n}{sep}n{i}.pem"), "wb") as fh:
+                    fh.write(pem(f"{n}_n{i}_alt"))
+    for n in ("ed25519", "p256"):
+        with open(os.path.join(tmp, f"{n}.pem"), "wb") as fh:
+            fh.write(pem(f"{n}_plain_alt"))
+    with open(os.path.join(tmp, "aes.bin"), "wb") as fh:
+        fh.write(aes_key("aes_alt"))
     open(os.path.join(tmp, ".complete"), "w").close()
     try:
         os.rename(tmp, d)
@@ -109,8 +115,9 @@ def key_dir(_unused=None) -> str:
             fh.write(der(n))
     for i in range(6):
         for n in ("ed25519", "p256"):
-            with open(os.path.join(tmp, f"{n}_n{i}.pem"), "wb") as fh:
-                fh.write(pem(f"{n}_n{i}"))
+            for sep in ("_", "."):       # "<kind>.n<i>" is the same identity under a dotted name (a sibling "<kind>.pem" exists)
+                with open(os.path.join(tmp, f"{n}{sep}n{i}.pem"), "wb") as fh:
+                    fh.write(pem(f"{n}_n{i}"))
     for n in ("aes", "aes_b"):
         with open(os.path.join(tmp, f"{n}.bin"), "wb") as fh:
             fh.write(aes_key(n))
